@@ -314,6 +314,10 @@ class SecopClient(ProxyClient):
     secop_version = ''
     descriptive_data = {}
     modules = {}
+    # no parameter is known before the description was received: the rx thread looks
+    # here for every reply, also for the reply to a request made after a failed connect()
+    internal = {}
+    identifier = {}
     _last_error = None
     _update_error_count = 0
     _max_error_count = 10
